@@ -1,6 +1,8 @@
 package implements
 
 import (
+	"go/types"
+
 	"github.com/a14e/gogreement/src/annotations"
 )
 
@@ -185,6 +187,12 @@ func signaturesMatch(typeMethod TypeMethod, ifaceMethod InterfaceMethod) bool {
 
 // typesMatch checks if two types are the same
 func typesMatch(t1 *MethodType, t2 *InterfaceType) bool {
+	// Models loaded from type information are compared by type identity: the flat description below cannot tell
+	// **T from *T, an alias from the type it denotes (also inside []A, map[K]A, ...), or byte from uint8
+	if t1.goType != nil && t2.goType != nil {
+		return t1.IsVariadic == t2.IsVariadic && types.Identical(t1.goType, t2.goType)
+	}
+
 	return t1.TypeName == t2.TypeName &&
 		t1.TypePackage == t2.TypePackage &&
 		t1.IsPointer == t2.IsPointer &&
